@@ -434,3 +434,7 @@ def check(chk):
                 protected = True
     chk.judge((not reg_before) or protected, 'C09.borrow', sm, 'send_msg: callback unregistered if the encoder raises',
               'the callback is registered under the stream id before encoder() can raise and is never unregistered: the stream id stays occupied')
+
+    # both pool classes take part in the stream accounting: an orphaned stream is released by its late answer, not by the timeout
+    chk.rule('C09.pools', 'return_connection(stream_was_orphaned=True) does not decrement in_flight in either pool class (shared with C12)')
+    chk.borrow('C12', {'C12.noorphan_dec': 'C09.pools'}, 'in_flight undercounts and ids beyond the protocol maximum are handed out')
